@@ -8,6 +8,7 @@ require (
 	github.com/mattn/go-sqlite3 v1.14.28
 	github.com/transparency-dev/formats v0.0.0-20241003145927-a04dcc2a37e4
 	github.com/transparency-dev/merkle v0.0.3-0.20240919113952-3c979d16ee14
+	github.com/transparency-dev/serverless-log v0.0.0-20240408141044-5d483a81bdb7
 	github.com/transparency-dev/witness v0.0.0
 	golang.org/x/mod v0.24.0
 	golang.org/x/net v0.39.0
@@ -20,7 +21,6 @@ require (
 
 require (
 	github.com/go-logr/logr v1.4.2 // indirect
-	github.com/transparency-dev/serverless-log v0.0.0-20240408141044-5d483a81bdb7 // indirect
 	github.com/transparency-dev/trillian-tessera v0.1.1 // indirect
 	golang.org/x/sys v0.32.0 // indirect
 	golang.org/x/text v0.24.0 // indirect
@@ -28,4 +28,4 @@ require (
 	google.golang.org/protobuf v1.36.5 // indirect
 )
 
-replace github.com/transparency-dev/witness => /tmp/wt/mut
+replace github.com/transparency-dev/witness => /repo
